@@ -34,6 +34,15 @@ package car
 //@   ensures full [C05]: err == nil ==> result0 == 16
 //@   ensures eof_clean [C02]: err == io.EOF ==> result0 == 0
 
+//@ func (*Characteristics).SetFullyIndexed
+//@   trusted
+//@   modifies c.Hi
+//@   ensures flag [C05]: fullyidx(c.Hi) == ite(b, 1, 0)
+
+//@ func (*Characteristics).IsFullyIndexed
+//@   trusted
+//@   ensures flag [C05]: result == (fullyidx(c.Hi) == 1)
+
 //@ func (Header).WriteTo
 //@   modifies wn(w)
 //@   ensures count [C05,C16]: wn(w) == old(wn(w)) + n && 0 <= n && n <= 40
